@@ -58,7 +58,7 @@ def parse_type(s: str):
             return ('seq', args[0])
         if head == 'str':
             return ('name',)
-        if head in ('int', 'bool', 'name', 'none', 'block', 'cls', 'inst', 'sub'):
+        if head in ('int', 'bool', 'name', 'none', 'block', 'cls', 'inst', 'sub', 'node', 'pyclass'):
             return (head,)
         if head in ('set', 'opt'):
             return (head, args[0])
@@ -89,7 +89,13 @@ def sort_of(ty):
     if ty in _sorts:
         return _sorts[ty]
     k = ty[0]
-    if k == 'int' or k == 'cls' or k == 'sub':
+    if k == 'node':
+        # an opaque Python object (an ast node): only its identity and its class membership (`isa`) are observed
+        s = IntSort()
+    elif k == 'pyclass':
+        # a Python class object, identified by its dotted name
+        s = Name
+    elif k == 'int' or k == 'cls' or k == 'sub':
         # 'sub': the opaque identity of a region's sub-graph object (value mode, DESIGN 2.2); its `graph` is an
         # uninterpreted function of the identity
         s = IntSort()
